@@ -9,6 +9,10 @@ X2 finiteness   in every Ok state each floating-point field of the record is fin
                 reference is finite on every path that reaches the deku reader (a guard dominates it).
 X3 track        in every Ok state  0 <= track < 360.
 X4 effects      nothing below the entry reads a clock / environment / randomness.
+X5 window       (necessary condition of the round trip) decode_latitude / decode_longitude executed abstractly
+                for every 32-bit word and several constant references: the result stays within half the
+                ambiguity range (2^18 resp. 2^19 steps of 128e-7 degrees; the packet carries 19 / 20 bits)
+                of the reference, and reaches both ends of that window.
 Not decided: the inversion of an independent encoder/encryptor (round trip): it quantifies over the
 values produced by a second implementation; no structural rule stands for it.
 """
@@ -105,6 +109,37 @@ def run(prog, rep, tier):
                       sample={'field': 'track', 'interval': [w[1], w[2]]})
     if 'track' not in worst:
         rep.missing('Flarm.track')
+    # X5 window of the position reconstruction
+    from absint import mk_int, T
+    STEP = 128e-7
+    for fn, nbits, refs in (('decode_latitude', 19, (0.0, 46.0, -33.3, 89.9)), ('decode_longitude', 20, (0.0, 7.0, -120.25, 179.9))):
+        body = next((b for b in prog.bodies.values() if b['kind'] == 'fn' and b['name'] == 'decode::flarm::Flarm::' + fn), None)
+        if body is None:
+            rep.missing('Flarm::' + fn)
+            continue
+        W = (1 << (nbits - 1)) * STEP
+        for r in refs:
+            E5 = runner.make_engine(prog, K=8)
+            rets5 = runner.run_entry(E5, body, [E5.reg(mk_int(0, (1 << 32) - 1, 0, T('o', ('p', 'word')))), ('F', r, r, False, None)], quiet=True)
+            lo, hi, nan = INF, -INF, False
+            for st, v in rets5:
+                v = E5.deep_resolve(st, v)
+                if v == A.BOT or v[0] != 'E':
+                    nan = True
+                    continue
+                for idx, pl in v[2]:
+                    if idx == 0:
+                        x = E5.scalar(st, pl[0])
+                        if x[0] != 'F':
+                            nan = True
+                        else:
+                            lo, hi, nan = min(lo, x[1]), max(hi, x[2]), nan or x[3]
+            inside = not nan and lo >= r - W - 2 * STEP and hi <= r + W + 2 * STEP
+            covers = not nan and lo <= r - W + 3 * STEP and hi >= r + W - 3 * STEP
+            rep.check(inside and covers, 'X5-window', '%s#window@%s' % (fn, r), body['file'],
+                      '%s with reference %s returns values in [%s, %s] (offsets %+.5f .. %+.5f); the %d-bit field gives a window of +-%.5f degrees around the reference%s'
+                      % (fn, r, lo, hi, lo - r, hi - r, nbits, W, '' if inside else ': a target inside the window is decoded outside it'),
+                      sample={'fn': fn, 'reference': r, 'offsets': [lo - r, hi - r], 'window': W})
     # X4 effects
     ne = 0
     for did, cnt in sorted(E.ext_calls.items()):
